@@ -12,8 +12,8 @@ META = {
              "runOps_shape that needs no hypothesis on the data) and the explorer lists the file under exactly that name iff it has three "
              "'/'-separated parts (scan_v3); for every legacy version-2 file whose first entry is the __swamp_meta__ entry, also after "
              "any appending by the current writer, the fallback returns that name (name_roundtrip_v2_fallback). longName_truncates / "
-             "not_holds_of_acceptsLongName: a 65536-byte name reads back empty; not_holds_of_noFallback. Compaction (C03's model) is "
-             "not covered by these theorems."),
+             "not_holds_of_acceptsLongName: a 65536-byte name reads back empty; not_holds_of_noFallback. compaction_keeps_name / "
+             "compacted_v3 / compacted_v2: compaction (modelled on the same writer) yields a V3 file answering the same name."),
     "note": ("Trusted: Lean kernel; extract/c29.go; harness/c29.go; os.File as a byte string; snappy/CRC-32 parameters (executable copies "
              "differential-tested). Directory walking (filepath.WalkDir, worker pool) of the explorer is exercised, not modelled: the "
              "model decides per file. Files rewritten by compaction are outside this check (C03)."),
@@ -26,24 +26,27 @@ FINDINGS = {
     "C29-name-mismatch": "ReadSwampName returns a name other than the one the file was written under",
 }
 
-ENGINE = {"v3", "v3app", "v3open", "v2", "v2app", "v2resv"}
+ENGINE = {"v3", "v3app", "v3open", "v2", "v2app", "v2resv", "v3cmp", "v2cmp", "v3torn"}
 
 
 def oracle(ops, impl):
     """Spec on implementation replies: engine-written files answer their name; the listing of a
     case is exactly the three-part names of its files."""
     bad = []
-    expect = set()
+    expect = []          # per file of the case, in creation order: its three-part name (hex) or None
     listing_ok = True
     for i, (op, rep) in enumerate(zip(ops, impl)):
         f = op.split(" ")
         if f[0] == "case":
-            expect, listing_ok = set(), True
+            expect, listing_ok = [], True
+        elif f[0] == "wipe":
+            expect = []
+        elif f[0] == "rmlast":
+            expect = expect[:-1]
         elif f[0] == "create":
             if rep == "ok":
                 n = S.spec_bytes(f[1])
-                if n.count(b"/") >= 2:
-                    expect.add(n.hex() or "-")
+                expect.append((n.hex() or "-") if n.count(b"/") >= 2 else None)
         elif f[0] == "f":
             want = S.spec_bytes(f[2])
             if f[3] in ENGINE:
@@ -52,14 +55,21 @@ def oracle(ops, impl):
                     bad.append((i, "ReadSwampName of a %s file written under a %d-byte name returned %s" % (f[3], len(want), got[:60]),
                                 "C29-long-name-truncated" if len(want) > 65535 else None))
                     listing_ok = False
-                elif want.count(b"/") >= 2:
-                    expect.add(want.hex())
+                    expect.append(None)
+                else:
+                    expect.append(want.hex() if want.count(b"/") >= 2 else None)
+            else:
+                # not engine-written: whatever name it answers, it is a file of the directory
+                got = rep[5:] if rep.startswith("name ") and not rep.startswith("name err") else ""
+                raw = bytes.fromhex(got) if got and got != "-" else b""
+                expect.append(got if raw.count(b"/") >= 2 else None)
         elif f[0] == "scan" and listing_ok:
             names = rep.split("names=")[-1]
             got = set() if names == "none" else set(names.split(","))
-            if got != expect:
+            want_set = set(x for x in expect if x)
+            if got != want_set:
                 bad.append((i, "explorer listing differs from the files on disk: missing %s, extra %s" %
-                            (sorted(expect - got)[:2], sorted(got - expect)[:2]), None))
+                            ([x[:40] for x in sorted(want_set - got)][:2], [x[:40] for x in sorted(got - want_set)][:2]), None))
     return bad
 
 
@@ -114,7 +124,7 @@ def run(ctx):
     return K.finish(
         ctx, "proof",
         rule=("directories = corpus (names of 65535/65536/65537/70000 bytes, one V3, one legacy V2) + random cases of 1..14 files: V3 fresh / "
-              "appended over 1..3 further sessions / snapshot while the writer is open / without a name; legacy V2 synthesised as the old "
+              "appended over 1..3 further sessions / snapshot while the writer is open / without a name / rewritten by the real Compactor; legacy V2 synthesised as the old "
               "writer laid it out, appended to by the current writer, with non-zero reserved bytes 44..45, without metadata entry; names: "
               "UTF-8, binary, 0..6 slashes, 1..65535 bytes; each directory is scanned by the real explorer; every `f` line is "
               "non-trivial; distinct = distinct file bytes"),
